@@ -123,6 +123,11 @@ class StubSelector:
         env.tick()
         S = env.S
         possible = env.ready_possible(self.registered[1])
+        if getattr(env, "hidden_ready", False):
+            # the awaited event is never REPORTED by the selector although the operation would succeed when retried (what
+            # retry_interval exists for: e.g. data already sitting in a TLS object's buffer).  An untimed wait blocks forever.
+            possible = False
+            env.spurious_left = 0
         if timeout is None:
             if not possible:
                 if env.spurious_left <= 0:
